@@ -32,13 +32,14 @@ theorem trigger_model (it : Item) (fn : Nat) (_hm : it.modulo ≠ 0)
     exact (Nat.mod_add_div _ _).symm
   · rw [hk, Nat.add_mul_mod_self_right, Nat.mod_mod]
 
-/-- The constants of the current tree: two ticks ahead, one tick of DSP latency; the set
-    is handed to the TDMA scheduler with offset `AHEAD − LATENCY = 1`, so its first burst
-    is on the air in frame `fn + SCHEDULE_AHEAD` – the frame the trigger compares. -/
-theorem trigger_constants :
-    SCHEDULE_AHEAD = 2 ∧ SCHEDULE_LATENCY = 1 ∧ frameOffset = 1 ∧ MF_F_SACCH = 1 ∧
-    ∀ fn, airFrame fn = fn + SCHEDULE_AHEAD :=
-  ⟨by decide, by decide, by decide, by decide, airFrame_eq⟩
+/-- The set is handed to the TDMA scheduler with offset `SCHEDULE_AHEAD − SCHEDULE_LATENCY`
+    and the DSP executes a command one frame after it was given (`dspLatency`), so the
+    first burst of the set is on the air in frame `fn + SCHEDULE_AHEAD` – the frame the
+    trigger compares with the row's `frame_nr`.  (Holds for any look-ahead as long as
+    `SCHEDULE_LATENCY` is the DSP's latency.) -/
+theorem trigger_air_frame :
+    frameOffset + dspLatency = SCHEDULE_AHEAD ∧ ∀ fn, airFrame fn = fn + SCHEDULE_AHEAD :=
+  ⟨by decide, airFrame_eq⟩
 
 /-- What `mframe_schedule_set` hands to the TDMA scheduler at a tick: one call per
     triggering row, in table order, nothing else. -/
@@ -87,27 +88,6 @@ theorem mapping_agrees : ∀ e ∈ table, EntryAgrees e := by
   · exact (List.all_eq_true.1 entries_check_1) e h
   · exact (List.all_eq_true.1 entries_check_2) e h
   · exact (List.all_eq_true.1 entries_check_3) e h
-
-/-- the firmware starts a block of (the SACCH of, `s = true`) the task's channel at
-    tick `fn`; the block's first burst is on the air in frame `airFrame fn` -/
-def FwStartsBlock (items : List Item) (d : Dir) (s : Bool) (fn : Nat) : Prop :=
-  ∃ it ∈ items, d ∈ setDirs it.set ∧ isSacch it = s ∧ fires it fn = true
-
-/-- trxcon's layout marks frame number `f` as the first burst (bid 0) of a block of `c` -/
-def LayoutFirstBurst (L : Layout) (d : Dir) (c : Lchan) (f : Nat) : Prop :=
-  ∃ fr, lookup L f = .ok fr ∧ (chanOf d fr).1 = c ∧ (chanOf d fr).2 = 0
-
-/-- trxcon's layout gives frame number `f` to channel `c` -/
-def LayoutOwns (L : Layout) (d : Dir) (c : Lchan) (f : Nat) : Prop :=
-  ∃ fr, lookup L f = .ok fr ∧ (chanOf d fr).1 = c
-
-theorem fwMarks_iff (items : List Item) (d : Dir) (s : Bool) (fn : Nat) :
-    fwMarks items d s fn = true ↔ FwStartsBlock items d s fn := by
-  simp only [fwMarks, selItems, List.any_eq_true, List.mem_filter, Bool.and_eq_true,
-    decide_eq_true_eq, beq_iff_eq, FwStartsBlock]
-  constructor
-  · rintro ⟨it, ⟨hm, hd, hs⟩, hf⟩; exact ⟨it, hm, hd, hs, hf⟩
-  · rintro ⟨it, hm, hd, hs, hf⟩; exact ⟨it, ⟨hm, hd, hs⟩, hf⟩
 
 /-- **Block channels** (BCCH, CCCH plain and combined, SDCCH/4 and SDCCH/8 sub-channels
     and their SACCHs, CBCH, PDTCH): for every task, direction, valid timeslot and frame
@@ -202,11 +182,6 @@ theorem tch_frames_agree :
 theorem layouts_table_ok : (layouts.filter fun L => L.config != .NONE).all tableOk = true := by
   decide +kernel
 
-theorem mem_real_layouts {L : Layout} (hL : L ∈ layouts) (hn : L.config ≠ .NONE) :
-    L ∈ layouts.filter fun L => L.config != .NONE := by
-  simp only [List.mem_filter, bne_iff_ne, ne_eq]
-  exact ⟨hL, hn⟩
-
 /-- No frame lookup of any frame number leaves the table: every layout except `NONE`
     (note N15: period 0, frames NULL, never configured by the callers) has a positive
     period and a table of exactly `period` rows, so `frames[fn % period]` is a row of the
@@ -272,6 +247,94 @@ theorem chans_in_mask : ∀ L ∈ layouts, L.config ≠ .NONE → ∀ fn f, look
   have := (List.all_eq_true.1 hm) f (by rw [← hlk]; exact List.getElem_mem hlt)
   simp only [frameInMask, Bool.and_eq_true, Bool.or_eq_true, beq_iff_eq] at this
   exact ⟨fun h => this.1.resolve_left h, fun h => this.2.resolve_left h⟩
+
+/-! ## the same, as sets of frames modulo the multiframe period -/
+
+theorem layouts_period_bounds :
+    (layouts.all fun L => decide (L.period + L.period < 4294967296) &&
+      (L.config == .NONE || decide (SCHEDULE_AHEAD ≤ L.period))) = true := by decide +kernel
+
+/-- **Block channels, as the property words it**: for every task, valid timeslot and
+    direction, the set of frames modulo the multiframe period in which the firmware starts
+    a block (of the channel; of its SACCH) is exactly the set of rows `r` that trxcon's
+    layout marks as burst 0 of the mapped channel in that direction. -/
+theorem block_start_residues_agree :
+    ∀ e ∈ table, e.kind = .block → ∃ items, tableOf e.task = some items ∧
+      ∀ tn ∈ e.tns, ∃ L, layoutFor e.config tn = some L ∧ ∀ d ∈ e.dirs, ∀ r, r < L.period →
+        ((∃ fn, fn + SCHEDULE_AHEAD < 4294967296 ∧ FwStartsBlock items d false fn ∧
+            airFrame fn % L.period = r) ↔ LayoutFirstBurst L d e.main r) ∧
+        (∀ sc, e.sacch = some sc →
+          ((∃ fn, fn + SCHEDULE_AHEAD < 4294967296 ∧ FwStartsBlock items d true fn ∧
+              airFrame fn % L.period = r) ↔ LayoutFirstBurst L d sc r)) := by
+  intro e he hk
+  obtain ⟨items, hit, hall⟩ := block_starts_agree e he hk
+  refine ⟨items, hit, fun tn htn => ?_⟩
+  obtain ⟨L, hL, hag⟩ := hall tn htn
+  have hmem := layoutFor_mem hL
+  have hne : L.config ≠ .NONE := by
+    intro hc
+    have h0 := none_layout_excluded L hmem hc
+    obtain ⟨d, hd⟩ : ∃ d, d ∈ e.dirs := by
+      have : (table.all fun e => !e.dirs.isEmpty) = true := by decide
+      have := (List.all_eq_true.1 this) e he
+      cases hdirs : e.dirs with
+      | nil => rw [hdirs] at this; exact absurd this (by decide)
+      | cons a t => exact ⟨a, by simp⟩
+    have hA : (0 : Nat) + SCHEDULE_AHEAD < 4294967296 := by decide
+    -- `mapping_agrees` looks the frame of tick 0 up successfully; in the NONE layout it cannot
+    obtain ⟨items', _, hall'⟩ := mapping_agrees e he
+    obtain ⟨L', hL', hag'⟩ := hall' tn htn
+    rw [hL] at hL'; cases hL'
+    obtain ⟨fr, hlk, _⟩ := agreeAt_iff items' L e d 0 (hag' d hd 0 hA)
+    rw [h0] at hlk; cases hlk
+  have hb := (List.all_eq_true.1 layouts_period_bounds) L hmem
+  simp only [Bool.and_eq_true, Bool.or_eq_true, decide_eq_true_eq, beq_iff_eq] at hb
+  have hA : SCHEDULE_AHEAD ≤ L.period := hb.2.resolve_left hne
+  refine ⟨L, hL, fun d hd r hr => ⟨?_, fun sc hsc => ?_⟩⟩
+  · exact residues_of_pointwise L hA hb.1 _ _ (firstBurst_congr L d e.main)
+      (fun fn hfn => (hag d hd fn hfn).1) r hr
+  · exact residues_of_pointwise L hA hb.1 _ _ (firstBurst_congr L d sc)
+      (fun fn hfn => (hag d hd fn hfn).2.1 sc hsc) r hr
+
+/-- **TCH/F, TCH/H traffic and SACCH/T, as sets**: the frames modulo the layout period
+    (104 = 4 × 26) for which the firmware schedules a traffic row (a SACCH row) are exactly
+    the rows the layout gives to the traffic channel (the SACCH channel). -/
+theorem tch_frame_residues_agree :
+    ∀ e ∈ table, e.kind = .perFrame → ∃ items, tableOf e.task = some items ∧
+      ∀ tn ∈ e.tns, ∃ L, layoutFor e.config tn = some L ∧ ∀ d ∈ e.dirs, ∀ r, r < L.period →
+        ((∃ fn, fn + SCHEDULE_AHEAD < 4294967296 ∧ FwStartsBlock items d false fn ∧
+            airFrame fn % L.period = r) ↔ LayoutOwns L d e.main r) ∧
+        (∀ sc, e.sacch = some sc →
+          ((∃ fn, fn + SCHEDULE_AHEAD < 4294967296 ∧ FwStartsBlock items d true fn ∧
+              airFrame fn % L.period = r) ↔ LayoutOwns L d sc r)) := by
+  intro e he hk
+  obtain ⟨items, hit, hall⟩ := tch_frames_agree e he hk
+  refine ⟨items, hit, fun tn htn => ?_⟩
+  obtain ⟨L, hL, hag⟩ := hall tn htn
+  have hmem := layoutFor_mem hL
+  have hne : L.config ≠ .NONE := by
+    intro hc
+    have h0 := none_layout_excluded L hmem hc
+    obtain ⟨d, hd⟩ : ∃ d, d ∈ e.dirs := by
+      have : (table.all fun e => !e.dirs.isEmpty) = true := by decide
+      have := (List.all_eq_true.1 this) e he
+      cases hdirs : e.dirs with
+      | nil => rw [hdirs] at this; exact absurd this (by decide)
+      | cons a t => exact ⟨a, by simp⟩
+    have hA : (0 : Nat) + SCHEDULE_AHEAD < 4294967296 := by decide
+    obtain ⟨items', _, hall'⟩ := mapping_agrees e he
+    obtain ⟨L', hL', hag'⟩ := hall' tn htn
+    rw [hL] at hL'; cases hL'
+    obtain ⟨fr, hlk, _⟩ := agreeAt_iff items' L e d 0 (hag' d hd 0 hA)
+    rw [h0] at hlk; cases hlk
+  have hb := (List.all_eq_true.1 layouts_period_bounds) L hmem
+  simp only [Bool.and_eq_true, Bool.or_eq_true, decide_eq_true_eq, beq_iff_eq] at hb
+  have hA : SCHEDULE_AHEAD ≤ L.period := hb.2.resolve_left hne
+  refine ⟨L, hL, fun d hd r hr => ⟨?_, fun sc hsc => ?_⟩⟩
+  · exact residues_of_pointwise L hA hb.1 _ _ (owns_congr L d e.main)
+      (fun fn hfn => (hag d hd fn hfn).1) r hr
+  · exact residues_of_pointwise L hA hb.1 _ _ (owns_congr L d sc)
+      (fun fn hfn => (hag d hd fn hfn).2 sc hsc) r hr
 
 /-! ## `l1sched_mframe_layout` -/
 
@@ -389,12 +452,15 @@ theorem spec_covers_tasks : ∀ t : Task, notInTrxcon t = true ∨ ∃ e ∈ tab
 
 /-- the hypotheses are met by non-trivial values: SDCCH/4(0) in the combined CCCH has a
     table and a layout, its Uplink block starts in frame 37 and its Uplink SACCH block in
-    frame 57 of the 102-multiframe (ticks 35 and 55), and nowhere else around them. -/
+    frame 57 of the 102-multiframe (`SCHEDULE_AHEAD` ticks earlier), and not one frame later. -/
 example : (⟨.SDCCH4_0, .CCCH_SDCCH4, allTn, .SDCCH4_0, some .SACCH4_0, DU, .block⟩ : Entry) ∈ table ∧
-    fwMarks mf_sdcch4_0 .ul false 35 = true ∧ fwMarks mf_sdcch4_0 .ul true 55 = true ∧
-    fwMarks mf_sdcch4_0 .ul false 36 = false ∧ fwMarks mf_sdcch4_0 .ul true 35 = false ∧
+    (match tableOf .SDCCH4_0 with
+     | none => false
+     | some items =>
+       fwMarks items .ul false (37 - SCHEDULE_AHEAD) && fwMarks items .ul true (57 - SCHEDULE_AHEAD) &&
+       !fwMarks items .ul false (38 - SCHEDULE_AHEAD) && !fwMarks items .ul true (37 - SCHEDULE_AHEAD)) = true ∧
     (layoutFor .CCCH_SDCCH4 0).isSome = true ∧ (35 + SCHEDULE_AHEAD < 4294967296) := by
-  refine ⟨by simp [table], ?_, ?_, ?_, ?_, ?_, ?_⟩ <;> decide +kernel
+  refine ⟨by simp [table], ?_, ?_, ?_⟩ <;> decide +kernel
 
 example : (match layoutFor .CCCH 0 with
     | some L => (match lookup L 10607 with | .ok f => f == ⟨.IDLE, 0, .RACH, 0⟩ | _ => false)
